@@ -10,7 +10,7 @@ CFG = dict(
               "stl_mesh_resave_attribute_witness", "stl_mesh_resave_zero_normal_mixed_witness", "stl_mesh_resave_nonunit_normal_witness",
               "stl_mesh_roundtrip_real", "stl_stored_normal_is_normalised_mean", "stl_fallback_normal_is_geometric",
               "stl_stored_normal_returned"],
-    streams=[dict(name="c07", n=dict(quick=250, thorough=6000))],
+    streams=[dict(name="c07", n=dict(quick=250, thorough=6000), timeout=dict(quick=600, thorough=3600))],
     trusted=T_COMMON + [
         "encoding/binary (struct layout of stl.Triangle: 12 float32 + uint16, no padding) — observed byte-exact against the model on every run",
         "driver instance of the precision bundle: Lean Float.toFloat32 / Float32.toFloat / Float arithmetic = Go float32()/float64()/float64 arithmetic on amd64 (observed bit-exact; NaN payloads canonicalised on both sides)",
